@@ -21,6 +21,16 @@ TARGET = os.path.join(CACHE, 'kani-target' if REPO == '/repo' else 'kani-target-
 def run(harnesses, jobs=8, timeout=3000, extra_env=None):
     """harnesses: list of fully qualified names (e.g. pest_bridge::verif_kani::int_lit).
     Returns (results, cmdline).  results[h] = dict(status, checks, failed, covers, secs, failures[])"""
+    # every `cargo kani` compiles the whole crate, including the harness file of src/token.rs, which includes
+    # the generated control-name list: make sure it exists whichever property is being checked
+    from . import props as _props
+    try:
+        _props.control_names()
+    except Undecided:
+        gen = os.path.join(CACHE, 'gen')
+        os.makedirs(gen, exist_ok=True)
+        with open(os.path.join(gen, 'control_names.rs'), 'w') as f:
+            f.write('pub const CONTROL_NAMES: &[&str] = &[];\n')
     cmd = ['cargo', 'kani', '--target-dir', TARGET, '-Z', 'function-contracts', '-Z', 'stubbing',
            '--output-format', 'terse', '-j', str(min(jobs, max(1, len(harnesses))))]
     for h in harnesses:
